@@ -79,11 +79,11 @@ theorem isTail_iff (b : UInt8) : isTail b = true ↔ 0x80 ≤ b.toNat ∧ b.toNa
 
 theorem utf8Len_cases (b : UInt8) (r : Bytes) (n : Nat) (h : utf8Len (b :: r) = some n) :
     (n = 1 ∧ b.toNat ≤ 0x7F ∧ ∀ X, utf8Len (b :: X) = some 1) ∨
-    (n = 2 ∧ 0x80 ≤ b.toNat ∧ ∃ b1 r', r = b1 :: r' ∧ isTail b1 = true ∧
+    (n = 2 ∧ (0xC2 ≤ b.toNat ∧ b.toNat ≤ 0xDF) ∧ ∃ b1 r', r = b1 :: r' ∧ isTail b1 = true ∧
         ∀ X, utf8Len (b :: b1 :: X) = some 2) ∨
-    (n = 3 ∧ 0x80 ≤ b.toNat ∧ ∃ b1 b2 r', r = b1 :: b2 :: r' ∧ isTail b1 = true ∧ isTail b2 = true ∧
+    (n = 3 ∧ (0xE0 ≤ b.toNat ∧ b.toNat ≤ 0xEF) ∧ ∃ b1 b2 r', r = b1 :: b2 :: r' ∧ isTail b1 = true ∧ isTail b2 = true ∧
         ∀ X, utf8Len (b :: b1 :: b2 :: X) = some 3) ∨
-    (n = 4 ∧ 0x80 ≤ b.toNat ∧ ∃ b1 b2 b3 r', r = b1 :: b2 :: b3 :: r' ∧ isTail b1 = true ∧
+    (n = 4 ∧ (0xF0 ≤ b.toNat ∧ b.toNat ≤ 0xF4) ∧ ∃ b1 b2 b3 r', r = b1 :: b2 :: b3 :: r' ∧ isTail b1 = true ∧
         isTail b2 = true ∧ isTail b3 = true ∧ ∀ X, utf8Len (b :: b1 :: b2 :: b3 :: X) = some 4) := by
   unfold utf8Len at h
   by_cases c1 : b ≤ 0x7F
@@ -104,7 +104,9 @@ theorem utf8Len_cases (b : UInt8) (r : Bytes) (n : Nat) (h : utf8Len (b :: r) = 
         simp only at h
         by_cases t1 : isTail b1 = true
         · simp only [t1, if_true, Option.some.injEq] at h
-          exact ⟨h.symm, hb80, b1, r', rfl, t1, fun X => by simp [utf8Len, c1, c2, t1]⟩
+          have hr2 : 0xC2 ≤ b.toNat ∧ b.toNat ≤ 0xDF := by
+            simpa [UInt8.le_iff_toNat_le] using c2
+          exact ⟨h.symm, hr2, b1, r', rfl, t1, fun X => by simp [utf8Len, c1, c2, t1]⟩
         · simp [t1] at h
     · simp only [c2, Bool.false_eq_true, if_false] at h
       right
@@ -117,7 +119,9 @@ theorem utf8Len_cases (b : UInt8) (r : Bytes) (n : Nat) (h : utf8Len (b :: r) = 
           split at h
           · rename_i hc
             simp only [Option.some.injEq] at h
-            refine ⟨h.symm, hb80, b1, b2, r', rfl, ?_, ?_, fun X => by simp [utf8Len, c1, c2, c3, hc]⟩
+            have hr3 : 0xE0 ≤ b.toNat ∧ b.toNat ≤ 0xEF := by
+              simpa [UInt8.le_iff_toNat_le] using c3
+            refine ⟨h.symm, hr3, b1, b2, r', rfl, ?_, ?_, fun X => by simp [utf8Len, c1, c2, c3, hc]⟩
             · simp only [Bool.and_eq_true, Bool.or_eq_true, beq_iff_eq, decide_eq_true_eq,
                 UInt8.le_iff_toNat_le] at hc
               rw [isTail_iff]
@@ -140,7 +144,9 @@ theorem utf8Len_cases (b : UInt8) (r : Bytes) (n : Nat) (h : utf8Len (b :: r) = 
             split at h
             · rename_i hc
               simp only [Option.some.injEq] at h
-              refine ⟨h.symm, hb80, b1, b2, b3, r', rfl, ?_, ?_, ?_,
+              have hr4 : 0xF0 ≤ b.toNat ∧ b.toNat ≤ 0xF4 := by
+                simpa [UInt8.le_iff_toNat_le] using c4
+              refine ⟨h.symm, hr4, b1, b2, b3, r', rfl, ?_, ?_, ?_,
                 fun X => by simp [utf8Len, c1, c2, c3, c4, hc]⟩
               · simp only [Bool.and_eq_true, Bool.or_eq_true, beq_iff_eq, decide_eq_true_eq,
                   UInt8.le_iff_toNat_le] at hc
@@ -171,6 +177,14 @@ theorem needsEscape_tail (t : UInt8) (r : Bytes) (ht : isTail t = true) : needsE
 theorem needsEscape_ascii (b : UInt8) (r : Bytes) (hb : b.toNat ≤ 0x7F) : needsEscape b r = special b := by
   have h3 : (b == 0xE2) = false := by simp; intro h; subst h; simp at hb
   simp [needsEscape, special, h3]
+
+theorem needsEscape_lead (b : UInt8) (r : Bytes) (hb : 0x80 ≤ b.toNat) (hne : b.toNat ≠ 0xE2) :
+    needsEscape b r = false := by
+  have h1 : (b == 0x22) = false := by simp; intro h; subst h; simp at hb
+  have h2 : (b == 0x5C) = false := by simp; intro h; subst h; simp at hb
+  have h3 : (b == 0xE2) = false := by simp; intro h; subst h; simp at hne
+  have h4 : decide (b < 0x20) = false := by simp [UInt8.lt_iff_toNat_lt]; omega
+  simp [needsEscape, h1, h2, h3, h4]
 
 theorem escBody_plain (b : UInt8) (r : Bytes) (h : needsEscape b r = false) :
     escBody 0 (b :: r) = b :: escBody 0 r := by
@@ -234,8 +248,8 @@ theorem strBody_escBody : ∀ (f : Nat) (s : Bytes), validStr f s = true →
             have hE2 : (b == 0xE2) = false := by simp; intro h; subst h; simp at hb
             have he : escBody 0 (b :: r) = escapeChar b.toNat ++ escBody 0 r := by
               simp [escBody, hne, hE2]
-            rw [he, escapeChar_cons, List.cons_append, List.append_assoc]
-            rw [he, escapeChar_cons] at hg
+            rw [he, escapeChar_cons] at hg ⊢
+            simp only [List.cons_append, List.append_assoc]
             have hc : strChar (0x5C :: ((escapeChar b.toNat).tail ++ (escBody 0 r ++ 0x22 :: rest))) =
                 some ([b], escBody 0 r ++ 0x22 :: rest) := by
               simp only [strChar]
@@ -254,13 +268,8 @@ theorem strBody_escBody : ∀ (f : Nat) (s : Bytes), validStr f s = true →
             simpa using this
         · -- two bytes
           simp only [List.drop_succ_cons, List.drop_zero] at h
-          have hlp := lead_plain b hb
-          have hne : needsEscape b (b1 :: r') = false := by
-            have : (b1 == 0x80) = true → isTail b1 = true := fun _ => t1
-            simp only [needsEscape, hlp.2.2, hlp.1]
-            have h4 : decide (b < 0x20) = false := by simp [UInt8.lt_iff_toNat_lt]; omega
-            simp [h4]
-            intro _; cases r' <;> simp
+          have hlp := lead_plain b (by omega)
+          have hne : needsEscape b (b1 :: r') = false := needsEscape_lead b _ (by omega) (by omega)
           have he : escBody 0 (b :: b1 :: r') = b :: b1 :: escBody 0 r' := by
             rw [escBody_plain b _ hne, escBody_plain b1 _ (needsEscape_tail b1 r' t1)]
           rw [he] at hg ⊢
@@ -268,7 +277,71 @@ theorem strBody_escBody : ∀ (f : Nat) (s : Bytes), validStr f s = true →
           simp only [List.take_succ_cons, List.take_zero, List.drop_succ_cons, List.drop_zero] at hc
           have := strBody_step g b _ _ _ r' rest hlp.2.2 hc (ih r' h g rest (by simp at hg; omega))
           simpa using this
-        · sorry
-        · sorry
+        · -- three bytes
+          simp only [List.drop_succ_cons, List.drop_zero] at h
+          have hlp := lead_plain b (by omega)
+          by_cases hls : needsEscape b (b1 :: b2 :: r') = true
+          · -- U+2028 / U+2029
+            have hbE2 : b = 0xE2 := by
+              by_cases hh : b.toNat = 0xE2
+              · exact UInt8.toNat_inj.mp hh
+              · rw [needsEscape_lead b _ (by omega) hh] at hls; cases hls
+            subst hbE2
+            have hb12 : b1 = 0x80 ∧ (b2 = 0xA8 ∨ b2 = 0xA9) := by
+              simpa [needsEscape] using hls
+            obtain ⟨rfl, hb2⟩ := hb12
+            have hsk : ∀ k, escBody (k + 2) (0x80 :: b2 :: r') = escBody k r' := by
+              intro k
+              rw [escBody_skip (k + 1) _ _ (needsEscape_tail _ _ t1),
+                escBody_skip k _ _ (needsEscape_tail _ _ t2)]
+            rcases hb2 with rfl | rfl
+            · have he : escBody 0 (0xE2 :: 0x80 :: 0xA8 :: r') = escapeChar 0x2028 ++ escBody 0 r' := by
+                rw [← hsk 0]; simp [escBody, hls]
+              rw [he, escapeChar_cons] at hg ⊢
+              simp only [List.cons_append, List.append_assoc]
+              have hc : strChar (0x5C :: ((escapeChar 0x2028).tail ++ (escBody 0 r' ++ 0x22 :: rest))) =
+                  some ([0xE2, 0x80, 0xA8], escBody 0 r' ++ 0x22 :: rest) := by
+                simp only [strChar]; exact escape_ls _
+              have := strBody_step g 0x5C _ _ _ r' rest (by decide) hc
+                (ih r' h g rest (by simp at hg; omega))
+              simpa using this
+            · have he : escBody 0 (0xE2 :: 0x80 :: 0xA9 :: r') = escapeChar 0x2029 ++ escBody 0 r' := by
+                rw [← hsk 0]; simp [escBody, hls]
+              rw [he, escapeChar_cons] at hg ⊢
+              simp only [List.cons_append, List.append_assoc]
+              have hc : strChar (0x5C :: ((escapeChar 0x2029).tail ++ (escBody 0 r' ++ 0x22 :: rest))) =
+                  some ([0xE2, 0x80, 0xA9], escBody 0 r' ++ 0x22 :: rest) := by
+                simp only [strChar]; exact escape_ps _
+              have := strBody_step g 0x5C _ _ _ r' rest (by decide) hc
+                (ih r' h g rest (by simp at hg; omega))
+              simpa using this
+          · have hne : needsEscape b (b1 :: b2 :: r') = false := by simpa using hls
+            have he : escBody 0 (b :: b1 :: b2 :: r') = b :: b1 :: b2 :: escBody 0 r' := by
+              rw [escBody_plain b _ hne, escBody_plain b1 _ (needsEscape_tail b1 _ t1),
+                escBody_plain b2 _ (needsEscape_tail b2 _ t2)]
+            rw [he] at hg ⊢
+            have hc := strChar_plain b (b1 :: b2 :: (escBody 0 r' ++ 0x22 :: rest)) 3 hlp.1 hlp.2.1 (hX _)
+            simp only [List.take_succ_cons, List.take_zero, List.drop_succ_cons, List.drop_zero] at hc
+            have := strBody_step g b _ _ _ r' rest hlp.2.2 hc (ih r' h g rest (by simp at hg; omega))
+            simpa using this
+        · -- four bytes
+          simp only [List.drop_succ_cons, List.drop_zero] at h
+          have hlp := lead_plain b (by omega)
+          have hne : needsEscape b (b1 :: b2 :: b3 :: r') = false :=
+            needsEscape_lead b _ (by omega) (by omega)
+          have he : escBody 0 (b :: b1 :: b2 :: b3 :: r') = b :: b1 :: b2 :: b3 :: escBody 0 r' := by
+            rw [escBody_plain b _ hne, escBody_plain b1 _ (needsEscape_tail b1 _ t1),
+              escBody_plain b2 _ (needsEscape_tail b2 _ t2), escBody_plain b3 _ (needsEscape_tail b3 _ t3)]
+          rw [he] at hg ⊢
+          have hc := strChar_plain b (b1 :: b2 :: b3 :: (escBody 0 r' ++ 0x22 :: rest)) 4 hlp.1 hlp.2.1 (hX _)
+          simp only [List.take_succ_cons, List.take_zero, List.drop_succ_cons, List.drop_zero] at hc
+          have := strBody_step g b _ _ _ r' rest hlp.2.2 hc (ih r' h g rest (by simp at hg; omega))
+          simpa using this
+
+/-- `Rfc.string` (after the opening quotation mark) reads the rendered body back -/
+theorem string_escBody (s rest : Bytes) (h : validString s = true) :
+    Rfc.string (escBody 0 s ++ 0x22 :: rest) = some (s, rest) := by
+  unfold Rfc.string
+  exact strBody_escBody _ s h _ rest (by simp; omega)
 
 end Usual.C03
